@@ -4,4 +4,4 @@
 From Coq Require Import Extraction ExtrOcamlBasic ExtrOcamlNativeString.
 From H264 Require Import Model.Driver.
 Extraction Language OCaml.
-Extraction "model.ml" cmd_bits cmd_rbsp cmd_decode_nal cmd_refnal cmd_annexb cmd_accum cmd_sps cmd_pps cmd_slice.
+Extraction "model.ml" cmd_bits cmd_rbsp cmd_decode_nal cmd_refnal cmd_annexb cmd_accum cmd_sps cmd_pps cmd_slice cmd_sei cmd_bp cmd_pt cmd_t35 cmd_avcc cmd_ctx cmd_pipeline.
